@@ -7,9 +7,9 @@
 (* history: the calls plus the projection the specification requires.      *)
 (* Under -simulate only complete histories (Len = MaxFacts) are printed.   *)
 (***************************************************************************)
-EXTENDS HpoCore, Json
+EXTENDS HpoSim, Json
 
-CONSTANTS MaxFacts, EmitAll
+CONSTANTS MaxFacts, EmitAll, WithPairs
 
 VARIABLE facts      \* history: Seq of [k, x, t] (t = 0: a record without term)
 
@@ -41,7 +41,8 @@ HSpec == HInit /\ [][HNext]_histVars
 EdgeSeq == LET E == {<<p, c>> \in Ids \X Ids : p \in parents[c]}
            IN  SetToSeq(E)
 
-Expect == [ arena |-> arena, edges |-> EdgeSeq, facts |-> facts, expect |-> Proj ]
+Expect == [ arena |-> arena, edges |-> EdgeSeq, facts |-> facts, expect |-> Proj,
+            pairs |-> IF WithPairs THEN SimPairs ELSE <<>> ]
 
 Emit == (EmitAll \/ Len(facts) = MaxFacts) => PrintT(<<"REPLAY", ToJson(Expect)>>)
 
